@@ -623,7 +623,7 @@ fn exec_lookalike(out: &mut CaseOut) {
         .map(|l| {
             let mut d = Dict::new();
             d.insert("dis".into(), Value::make_str(l));
-            d.insert("u".into(), Value::make_uri(l));
+            d.insert("u".into(), Value::make_uri(&l.replace('\t', " ")));
             d
         })
         .collect();
